@@ -33,6 +33,9 @@ ROWS = [
  ("C09d","C09",[], "data/src/data/number.rs", "do_op(&self, &rhs, i32::overflowing_sub, f64::sub)", "do_op(&self, &rhs, |a, b| (a.wrapping_sub(b), false), f64::sub)", "subtract wraps"),
  ("C07a","C07",[], "runtime/src/runtime/list.rs", "                        let result = start_int.plus(index).or_num_err()?;", "                        let result = start_int.plus(index).unwrap();", ".or_num_err()? -> .unwrap() in range indexing"),
  ("C13a","C13",["C01"], "compiler/src/lex/lexer.rs", "            (\">..<\", TokenType::ExclusiveRange),\n", "", ">..< removed from the operator table"),
+ ("C06h","C06",[], "compiler/src/build/build.rs", "                    data.push_instruction(Instruction::PutValue, None)?;\n                    instruction_metadata.push(InstructionMetadata::new(None));\n", "", "stand-alone conditional jump loses its fall-through PutValue"),
+ ("C06i","C06",[], "compiler/src/build/build.rs", "                    data.push_instruction(Instruction::UpdateValue, None)?;\n                    instruction_metadata.push(InstructionMetadata::new(Some(node_index)));\n                    data.push_instruction(Instruction::JumpTo,", "                    data.push_instruction(Instruction::PushValue, None)?;\n                    instruction_metadata.push(InstructionMetadata::new(Some(node_index)));\n                    data.push_instruction(Instruction::JumpTo,", "reapply pushes a new input value instead of replacing it"),
+ ("C06j","C06",[], "compiler/src/build/build.rs", "                    data.push_instruction(Instruction::EndSideEffect, None)?;", "                    data.push_instruction(Instruction::UpdateValue, None)?;", "side-effect block ends with UpdateValue instead of EndSideEffect"),
  ("C08a","C08",["C06"], "runtime/src/runtime/casting.rs", None, None, "type_cast catch-all forgets the unit"),
 ]
 out = "/verif/mutants"
